@@ -845,7 +845,7 @@ fn evidence_json(
                     J::s("Channel/U7/U14/ControllerNumber new/get/Display/FromStr, ControllerNumber predicates and constants"),
                 ]),
             )
-            .set("simulated", J::arr([J::s("clock (guarded hook: thread-local mock Instant; plus process-wide clock_gettime interposition inside API regions, so that direct std::time reads see the same simulated clock)"), J::s("MIDI rig: talkers, wire/merger with faults, poll timer, operator, system talker")])),
+            .set("simulated", J::arr([J::s("clock (guarded hook: thread-local mock Instant; plus process-wide clock_gettime interposition inside API regions, so that direct std::time reads see the same simulated clock)"), J::s("MIDI rig: talkers, wire/merger with faults, poll timer, operator, system talker"), J::s("host context of a call on the main instance: which OS thread makes it, whether it is made from a destructor during unwinding, at which address offset the scanner value lives (trace events hop / unwinding / misplaced)"), J::s("third-party ShortMessage implementors: well-behaved (two layouts), with a panicking getter (aborted feed), self-contradicting or impure (nothing judged until the next reset)"), J::s("process environment (interposed getenv, run knob env_mode) and stdout/stderr (interposed write/writev, run knob stdio_fails)"), J::s("fmt writers of the host (roomy, nearly full, failing)")])),
     );
     J::obj()
         .set("property_id", J::s(prop))
